@@ -1,0 +1,15 @@
+//go:build verif
+
+// Constructors used only by the deterministic-simulation harness (build tag verif).
+package admin
+
+import (
+	"github.com/onosproject/onos-config/pkg/pluginregistry"
+	"github.com/onosproject/onos-config/pkg/store/v2/configuration"
+	"github.com/onosproject/onos-config/pkg/store/v2/transaction"
+)
+
+// NewServerForVerif builds the admin Server over caller-supplied stores.
+func NewServerForVerif(t transaction.Store, c configuration.Store, r pluginregistry.PluginRegistry) *Server {
+	return &Server{transactionsStore: t, configurationsStore: c, pluginRegistry: r}
+}
